@@ -22,6 +22,8 @@ sys.path.insert(0, os.path.dirname(os.path.abspath(__file__)))
 from common import *
 a = parse_args()
 from hz import *
+import hz as _hz
+_hz.DECOY[0] = False      # this harness snapshots cache / object state around calls: the harness's own decoy reads would show in it
 import seismic_zfp
 from seismic_zfp.loader import SgzLoader, SgzLoader2d, SgzLoader3d
 from seismic_zfp.conversion import SeismicFileConverter
